@@ -24,7 +24,8 @@ TIERS = {
 }
 NEG = [("NegForgetsPersist.cfg", "WriteThrough"), ("NegPersistsBeforeStoring.cfg", "WriteThrough"),
        ("NegClobbersOther.cfg", "WriteThrough"), ("NegClobbersOtherFrame.cfg", "Frame"),
-       ("NegStaleLive.cfg", "WriteThrough"), ("NegDestroysStored.cfg", "WriteThrough")]
+       ("NegStaleLive.cfg", "WriteThrough"), ("NegDestroysStored.cfg", "WriteThrough"),
+       ("NegCloseRevertsToLoaded.cfg", "ReaderSeesLastAssigned")]
 
 
 def _pmap(fn, items):
@@ -64,6 +65,7 @@ def _features(seq):
     PersistsBeforeStoring from ForgetsPersist), assign-the-same, both orders of two slots, re-open after an assignment"""
     out = set()
     prev = None
+    resumed, set_in_resumed = False, set()
     for act, a, _t in seq:
         if act == "Set":
             out.add(("Set", a))
@@ -79,23 +81,46 @@ def _features(seq):
             out.add(("CloseAfterSet", prev[1]))
         elif act == "Open":
             out.add(("Open",))
+            resumed = False
+        elif act == "Resume":
+            out.add(("Resume",))
+            resumed = True
+            set_in_resumed = set()
+        if act in ("Set", "SetSame") and resumed:
+            set_in_resumed.add(a)
+        if act == "Close" and resumed:
+            # a session resumed on the same Workspace instance, an assignment through the object kept from the earlier
+            # session, then close
+            for x in set_in_resumed:
+                out.add(("ResumeSetClose", x))
         prev = (act, a)
     return out
 
 
-def _select(cover, start):
-    """smallest greedy sub-family of the transition cover (rotated by `start`) that still has every feature"""
-    feats = [_features(q) for q in cover]
-    need = set().union(*feats)
-    order = [(start + i) % len(cover) for i in range(len(cover))]
-    chosen = []
-    while need:
-        best = max(order, key=lambda i: (len(feats[i] & need), -order.index(i)))
-        if not feats[best] & need:
-            break
-        chosen.append(best)
-        need -= feats[best]
-    return [cover[i] for i in chosen]
+_SELECT_CACHE = {}
+
+
+def _select(cover, start, skip=()):
+    """a sub-family of the transition cover with every per-slot feature (except those in `skip`) and the smallest total
+    number of steps (exhaustive over sub-families of up to 3 behaviours); ties are rotated by `start`"""
+    import itertools
+    key = (id(cover), tuple(sorted(skip)))
+    if key not in _SELECT_CACHE:
+        feats = [_features(q) - set(skip) for q in cover]
+        need = set().union(*feats)
+        best = []
+        for r in (1, 2, 3):
+            for combo in itertools.combinations(range(len(cover)), r):
+                if set().union(*(feats[i] for i in combo)) >= need:
+                    best.append((sum(len(cover[i]) for i in combo), combo))
+            if best:
+                break
+        if not best:
+            best = [(sum(map(len, cover)), tuple(range(len(cover))))]
+        best.sort()
+        _SELECT_CACHE[key] = [c for n, c in best if n <= best[0][0] * 1.15][:6]
+    options = _SELECT_CACHE[key]
+    return [cover[i] for i in options[start % len(options)]]
 
 
 def _orders_sequences(cfg):
@@ -122,26 +147,54 @@ def run(tier, seed):  # pylint: disable=too-many-locals,too-many-statements,too-
     only = os.environ.get("VERIF_C03_ONLY")  # development aid: comma separated class names
     if only:
         targets = [t for t in targets if W.target_name(t) in only.split(",")]
+    shared = tempfile.mkdtemp(prefix="verif_c03_tpl_", dir="/tmp")  # templates built once, by the census workers
+    R.SHARED["dir"] = shared
+    try:
+        return _run(tier, seed, cfg, rng, t0, targets, only)
+    finally:
+        R.SHARED["dir"] = None
+        shutil.rmtree(shared, ignore_errors=True)
+
+
+def _run(tier, seed, cfg, rng, t0, targets, only):  # pylint: disable=too-many-locals,too-many-statements,too-many-branches,too-many-arguments
     cen = _pmap(R.census, targets)
     for c in cen:
         if c["error"] and c["error"].startswith("harness:"):
             raise MachineryError(c["error"])
     t_census = time.time() - t0
 
-    # ---- TLC: design-level check + exports
-    res_i, cover, n_edges_i = R.sequences_from_cover(cfg["ideal"], max_len=25)
-    res_o, orders, n_edges_o = _orders_sequences(cfg["orders"])
-    res_a = R.load_tracking_graph("track", cfg["asbuilt"])
-    if tier == "thorough":
-        res_i2, cover2, n_edges_i2 = R.sequences_from_cover("IdealQuick.cfg", max_len=25)
-        res_a2 = R.load_tracking_graph("track2", "AsBuiltQuick.cfg")
-    negs = []
-    for ncfg, inv in NEG:
-        r = funcheck.expect_violation("writethrough", "WriteThrough", ncfg, inv)
-        negs.append(f"{ncfg}: {inv} violated")
-        del r
+    # ---- TLC: design-level check + exports (independent runs, started together)
+    from concurrent.futures import ThreadPoolExecutor
+    with ThreadPoolExecutor(max_workers=6) as ex:
+        f_i = ex.submit(R.sequences_from_cover, cfg["ideal"], 25)
+        f_o = ex.submit(_orders_sequences, cfg["orders"])
+        f_a = ex.submit(R.load_tracking_graph, "track", cfg["asbuilt"])
+        if tier == "thorough":
+            f_i2 = ex.submit(R.sequences_from_cover, "IdealQuick.cfg", 25)
+            f_a2 = ex.submit(R.load_tracking_graph, "track2", "AsBuiltQuick.cfg")
+        f_neg = [ex.submit(funcheck.expect_violation, "writethrough", "WriteThrough", ncfg, inv) for ncfg, inv in NEG]
+        f_i1 = ex.submit(R.sequences_from_cover, "IdealK1.cfg", 25)
+        f_o1 = ex.submit(_orders_sequences, "OrdersK1.cfg")
+        f_a1 = ex.submit(R.load_tracking_graph, "track1", "AsBuiltK1.cfg")
+        f_tw = [ex.submit(R.load_tracking_graph, f"twin{kk}", tcfg, "4g", True)
+                for kk, tcfg in ((1, "TwinK1.cfg"), (2, "TwinQuick.cfg")) + (((3, "TwinThorough.cfg"),) if tier == "thorough" else ())]
+        res_i, cover, n_edges_i = f_i.result()
+        for f in f_tw:
+            f.result()
+        res_i1, cover1, _n1 = f_i1.result()
+        res_o1, orders1, _n2 = f_o1.result()
+        res_a1 = f_a1.result()
+        res_o, orders, n_edges_o = f_o.result()
+        res_a = f_a.result()
+        if tier == "thorough":
+            res_i2, cover2, n_edges_i2 = f_i2.result()
+            res_a2 = f_a2.result()
+        negs = []
+        for (ncfg, inv), f in zip(NEG, f_neg):
+            f.result()
+            negs.append(f"{ncfg}: {inv} violated")
     acts = {lab[0] for q in cover for lab in q}
-    if not {"Set", "SetSame", "SetInvalid", "Close", "Open"} <= acts:
+    if not {"Set", "SetSame", "SetInvalid", "Close", "Open", "Resume"} <= acts:
         raise MachineryError(f"an action of the spec was never taken in the exported graph: {sorted(acts)}")
 
     # ---- bindings
@@ -154,6 +207,14 @@ def run(tier, seed):  # pylint: disable=too-many-locals,too-many-statements,too-
     o_idx = rng.randrange(len(orders))
     representative = {}
     n_full = 0
+    # windows of classes that only inherit the setter of slot 1 need the features of slot 1 and of the two orders; the
+    # other slots are slot 1 of their own windows
+    other_slot_features = {f for q in cover for f in _features(q)
+                           if (f[0] in ("Set", "Twice", "SetSame", "CloseAfterSet", "ResumeSetClose") and f[1] != 1)
+                           or f[0] == "SetInvalid"}
+    resume_patterns = [q for q in orders if [x[0] for x in q] == ["Close", "Resume", "Set", "Close"] and q[2][1] == 1]
+    if not resume_patterns:
+        raise MachineryError("the Orders export has no behaviour Close, Resume, Set(1, t), Close")
     for t, c in zip(targets, cen):
         name = W.target_name(t)
         pairs_total += len(t["attrs"])
@@ -167,6 +228,21 @@ def run(tier, seed):  # pylint: disable=too-many-locals,too-many-statements,too-
         for a, why in c["skipped"].items():
             not_exercised[f"{name}.{a}"] = why
         attrs = list(c["attrs"])
+        if len(attrs) == 1:
+            # a class with a single exercisable attribute: the K = 1 configuration of the same specification
+            wins = []
+            for q in cover1 + [q for q in orders1 if [x[0] for x in q] == ["Close", "Resume", "Set", "Close"]]:
+                items.append({"target": t, "attrs": attrs, "path": q, "graph": "track1", "variant": "cover1"})
+            pairs_bound += 1
+            per_target[name] = {"attributes": len(t["attrs"]), "exercised": 1, "windows": 1,
+                                "behaviours": len(cover1)}
+            for a, why in c["skipped"].items():
+                not_exercised[f"{name}.{a}"] = why
+            continue
+        if not attrs:
+            for a, why in c["skipped"].items():
+                not_exercised[f"{name}.{a}"] = why
+            continue
         if len(attrs) < k:
             if len(attrs) >= 2 and k == 3:
                 wins = []
@@ -182,12 +258,16 @@ def run(tier, seed):  # pylint: disable=too-many-locals,too-many-statements,too-
             key = (t["defined_in"].get(w[0]), w[0], t["kind"])
             full = key not in representative
             representative.setdefault(key, name)
-            chosen = cover if full else _select(cover, wi + len(items))
+            chosen = cover if full else _select(cover, wi + len(items), skip=other_slot_features)
             n_full += full
             for q in chosen:
                 items.append({"target": t, "attrs": w, "path": q, "graph": "track", "variant": "cover" if full else "cover-sub"})
+            if not any(("ResumeSetClose", 1) in _features(q) for q in chosen):
+                # close, resume the same Workspace instance, assign slot 1 through the object kept from before, close
+                q = resume_patterns[(wi + len(items)) % len(resume_patterns)]
+                items.append({"target": t, "attrs": w, "path": q, "graph": "track", "variant": "resume"})
             # a share of the all-orders behaviours, dealt round-robin over all bindings
-            share = 2 if tier == "quick" else 4
+            share = 1 if tier == "quick" else 4
             for _ in range(share):
                 items.append({"target": t, "attrs": w, "path": orders[o_idx % len(orders)], "graph": "track",
                               "variant": "orders"})
@@ -253,8 +333,8 @@ def run(tier, seed):  # pylint: disable=too-many-locals,too-many-statements,too-
     if len(exercised_pairs) < pairs_bound:
         raise MachineryError(f"{pairs_bound - len(exercised_pairs)} bound pairs were never assigned in a replayed behaviour")
     viol += _census_violations(targets, cen, viol)
-    states = res_i.distinct + res_o.distinct + res_a.distinct
-    trans = res_i.generated + res_o.generated + res_a.generated
+    states = res_i.distinct + res_o.distinct + res_a.distinct + res_i1.distinct + res_o1.distinct + res_a1.distinct
+    trans = res_i.generated + res_o.generated + res_a.generated + res_i1.generated + res_o1.generated + res_a1.generated
     per_cfg = {cfg["ideal"]: {"distinct": res_i.distinct, "generated": res_i.generated, "edges": n_edges_i,
                               "cover_paths": len(cover), "wall_s": round(res_i.wall_s, 1)},
                cfg["orders"]: {"distinct": res_o.distinct, "generated": res_o.generated, "edges": n_edges_o,
@@ -321,7 +401,7 @@ def run(tier, seed):  # pylint: disable=too-many-locals,too-many-statements,too-
 
 def _pair_name(t, attr):
     definer = t["defined_in"].get(attr, t["cls"]).split(".")[-1]
-    return f"{definer}.{attr}@{t['kind']}"
+    return f"{definer}.{attr}@{t['kind']}" + ("~concatenated" if t.get("variant") == "concatenated" else "")
 
 
 def _census_violations(targets, cen, viol):
@@ -336,6 +416,11 @@ def _census_violations(targets, cen, viol):
                 continue
             out.append({"signature": f"lost-at-first-close:{pair}",
                         "summary": f"{W.target_name(t)}.{attr}: {text}",
+                        "case": {"target": W.target_name(t), "attrs": [attr], "path": [], "graph": "track",
+                                 "variant": "census"}})
+    for t, c in zip(targets, cen):
+        for attr, text in c.get("unreadable_after", {}).items():
+            out.append({"signature": f"file-unreadable:{_pair_name(t, attr)}", "summary": text,
                         "case": {"target": W.target_name(t), "attrs": [attr], "path": [], "graph": "track",
                                  "variant": "census"}})
     return out
@@ -370,10 +455,10 @@ def replay(doc):
         v = [x for x in _census_violations([t], [c], []) if x["case"]["attrs"] == case["attrs"]]
         return {"violations": v, "coverage": {"replayed": 1}}
     name = case.get("graph", "track")
-    cfg = {"track": None, "track2": "AsBuiltQuick.cfg"}.get(name)
-    if cfg is None:
-        cfg = "AsBuiltQuick.cfg" if len(case["attrs"]) == 2 else "AsBuiltThorough.cfg"
+    cfg = {1: "AsBuiltK1.cfg", 2: "AsBuiltQuick.cfg", 3: "AsBuiltThorough.cfg"}[len(case["attrs"])]
     R.load_tracking_graph(name, cfg)
+    R.load_tracking_graph(f"twin{len(case['attrs'])}", {1: "TwinK1.cfg", 2: "TwinQuick.cfg", 3: "TwinThorough.cfg"}[len(case["attrs"])],
+                          full_view=True)
     from ..pool import _cleanup, scratch
     scratch()
     try:
